@@ -10,7 +10,7 @@ T3 reflexivity: no built-in floating == / != in the comparator;
 S1 string loops stop at the NUL; mp::Equal tests kind() first.
 """
 import re
-from ..cfg import Facts, kids, strip, walk, cv, render, short_loc, call_args, TRANSPARENT
+from ..cfg import norm_facts, Facts, kids, strip, walk, cv, render, short_loc, call_args, TRANSPARENT
 from ..facts import export_many, AnalysisBroken
 from .. import units
 
@@ -466,15 +466,27 @@ def run(rep, ctx):
             if f.is_dependent() or not f.qn.startswith(vname + "::"):
                 continue
             for lp in f.find(lambda n: n["k"] in ("ForStmt", "WhileStmt", "DoStmt")):
-                ptrs = [v for v in walk(lp) if v["k"] == "VarDecl" and v.get("ct", "").replace("const ", "") in ("char *",)]
-                for v in ptrs:
-                    ks = lp.get("c", [])
-                    cond = ks[2] if lp["k"] == "ForStmt" and len(ks) > 2 else None
-                    okc = cond is not None and any(
-                        x["k"] == "UnaryOperator" and x.get("op") == "*" and
-                        strip(kids(x)[0]).get("declId") == v["declId"] for x in walk(cond))
-                    s1.check(okc, "%s|loop-on-%s" % (f.qn, v["name"]), short_loc(lp.get("l")),
-                             "loop advancing `%s` tests *%s in its condition" % (v["name"], v["name"]))
+                # characters read through a `const char *` inside the loop (pointer walk `*p` or index walk `p[i]`)
+                def char_reads(root):
+                    out = []
+                    for x in walk(root):
+                        base = None
+                        if x["k"] == "UnaryOperator" and x.get("op") == "*":
+                            base = strip(kids(x)[0])
+                        elif x["k"] == "ArraySubscriptExpr":
+                            base = strip(kids(x)[0])
+                        if base is not None and base["k"] == "DeclRefExpr" and (base.get("ct") or "").replace("const ", "").strip() == "char *":
+                            out.append((base.get("declId"), base.get("name")))
+                    return out
+                reads = char_reads(lp)
+                if not reads:
+                    continue
+                ks = lp.get("c", [])
+                cond = (ks[2] if len(ks) > 2 else None) if lp["k"] == "ForStmt" else (kids(lp)[-1] if lp["k"] == "DoStmt" else kids(lp)[0])
+                tested = {d for d, _ in char_reads(cond)} if cond is not None else set()
+                for d_, nm_ in sorted(set(reads)):
+                    s1.check(d_ in tested, "%s|loop-on-%s" % (f.qn, nm_), short_loc(lp.get("l")),
+                             "loop reading characters through `%s` tests the current character in its condition" % nm_)
     eq = [f for f in F.by_qn("mp::Equal") if f.cfg]
     if not eq:
         raise AnalysisBroken("mp::Equal not found")
@@ -482,10 +494,8 @@ def run(rep, ctx):
     vis = [n for n in E.walk() if n["k"] == "CXXMemberCallExpr" and n.get("callee", "").endswith("::Visit")]
     ok = False
     for v in vis:
-        for (cid, pol) in E.cfg.facts_at(v):
-            c = strip(E.nodes[cid])
-            if c["k"] == "BinaryOperator" and c["op"] == "!=" and pol is False and \
-                    all("kind()" in render(x) for x in kids(c)):
+        for t_, pol in norm_facts(E, v, canon=True):
+            if pol is True and "==" in t_ and t_.count("kind()") == 2:
                 ok = True
     s1.check(ok and len(vis) == 1, "mp::Equal|kind-first", short_loc(E.loc),
              "ExprComparator(e1).Visit(e2) is reached only when e1.kind() == e2.kind()")
